@@ -102,7 +102,7 @@ Print Assumptions C15_bytes_of_serialisation.
 (** the canonical serialisation of any value tree is in the grammar and is read back by the parser *)
 Theorem C15_serialisation_parses : forall v, nums_ok v = true ->
   wf_value (toks_of v) /\ parse_tokens (toks_of v) = Some v.
-Proof. intros v H. split; [exact (wf_toks_of v H) | exact (parse_tokens_toks_of v H)]. Qed.
+Proof. exact serialisation_parses. Qed.
 Print Assumptions C15_serialisation_parses.
 
 (** Pretty changes whitespace only *)
